@@ -130,7 +130,7 @@ def _frame_variable_list(env, tag, rel, given, before, sfx=""):
     names = _dim_names(env, rel)
     given.append(Variable("later", fx.domain("d_later", [4, 0])))
     now = _dim_names(env, rel)
-    _prove(env, "%s.frame.scope-independent-of-the-caller's-variable-list%s" % (tag, sfx), now == names,
+    _prove(env, "%s.frame.scope-independent-of-the-variable-list-given%s" % (tag, sfx), now == names,
            detail=lambda: dict(before=names, after_caller_appended_to_its_own_list=now))
 
 
@@ -327,8 +327,8 @@ def _check_chain(env, tag, rel, scope, oracle, chain, sfx="", slice_kw=None, zer
             now = _dim_names(env, src)
             _prove(env, flab + ".sliced-relation-keeps-its-dimensions" + sfx, now == src_names,
                    detail=lambda: dict(chain=chain, values=p, step=step, before=src_names, now=now))
-        if 0 < vi < len(all_vals) - 1:
-            continue     # (the two checks below: for the first and the last value of the sliced variables)
+        if vi < len(all_vals) - 1:
+            continue     # (the two checks below: once per chain, for the last value of the sliced variables)
         c0 = next(iter(fx.assignments(rest)))
         full0 = dict(p)
         full0.update(c0)
